@@ -7,6 +7,7 @@
 static void check_reads (int format, int ch, int rate, int t, int framewise)
 {	MEMF m ; SNDFILE *s ; SF_INFO ri ; const char *fn = vh_fname (format) ; int ts = vh_tsize [t], B = vh_block (format, ch, rate), i, j ;
 	long N = B > 1 ? 3 * B + B / 2 + 3 : 5003, F, got ; char *ref ;
+	if (N < 3000) N = 3000 + B / 2 + 3 ;		/* long enough for requests beyond the staging buffers even when the codec block is small (PAF 24: 10 frames) */
 	if (N * ch > 60000) N = 60000 / ch + 1 ;
 	if (vh_make_file (&m, format, ch, rate, N, 1) != 0) { vh_statf (1, "cannot_write:%s", fn) ; mv_free (&m) ; return ; }
 	s = vh_open_r (&m, format, ch, rate, &ri) ;
